@@ -27,10 +27,10 @@ TESTED_ONLY = {
  'C10': ['complexes differing in a highest-order simplex or a lone point are never equal, as a statement of its own (oracle c10 on mutated copies); copy == source and delete => strictly smaller are proved'],
  'C11': ['flag complexes beyond 4 points; growFlagComplex = rebuild (oracles c11, samefam)'],
  'C12': ['the family for arbitrary point sets in binary64 (oracle c12 with its own metric; the binary64 model itself is compared bit for bit with the code on every run); negative radius and diameter cases beyond the examples'],
- 'C13': ['closedness of every view, deletion of the whole star across indices, indices() covering the births, complexes() (shadow-log oracle c13)'],
- 'C14': ['agreement of the index-aware queries with the snapshot (oracle c14 per query); setMinimumIndex / setMaximumIndex'],
- 'C15': ['multi-name relabel as a whole, relabelDisjointFrom, Betti invariance, addSimplicesFrom isomorphism (oracle c15-pre/post)'],
- 'C16': ['compose beyond 3 points; every incompatibility shape; attribute merging; target complexes (oracle c16)'],
+ 'C13': ['that every view can be snapshotted (faces born no later than cofaces) for unbounded histories, deletion of the whole star across indices, indices() covering the births, complexes() (shadow-log oracle c13); snapshots being closed complexes is proved'],
+ 'C14': ['agreement of listings, counts, Euler characteristic, Betti numbers of the index-aware queries with the snapshot (oracle c14 per query; membership / order / faces of visible simplices are proved); setMinimumIndex / setMaximumIndex'],
+ 'C15': ['the renaming function of a whole relabel being the user mapping on every name, attributes along it, relabelDisjointFrom renaming only collisions, addSimplicesFrom isomorphism (oracle c15-pre/post); names-only, structure carried and Betti invariance are proved'],
+ 'C16': ['compatible => accepted, merged attribute values, target complexes (oracle c16); result = union and accepted => compatible are proved for every pair'],
  'C17': ['the JSON text layer (json.dumps / loads, files), name types, nested / unicode attribute values, wrapping in other JSON, filtrations (oracle c17)'],
  'C18': ['arbitrary targets beyond 3 points; requested name / attributes of the top simplex on non-empty targets (oracle c18)'],
  'C19': ['the Euler integral: level-set and simplex-wise formulas, default value, additivity, input unchanged (oracle c19); Euler characteristic = alternating Betti sum is proved for every history'],
